@@ -1,6 +1,7 @@
 import WzVerif.Driver.Proto
 import WzVerif.Model.Paths
 import WzVerif.Model.StaticFiles
+import WzVerif.Driver.PyPrelude
 namespace Wz.Driver.C14
 open Wz Wz.Proto Wz.Paths
 
@@ -34,6 +35,6 @@ def handle : Handler
     match unhexStr s with
     | some s => some (hexStr (secureAscii s))
     | none => some badArgs
-  | _, _ => none
+  | cmd, args => Wz.Driver.PyPrelude.handle cmd args  -- `pre.*`: primitives of Util/PyPrelude
 
 end Wz.Driver.C14
